@@ -63,13 +63,42 @@ func init() {
 					t.Case(key, "skipped-53-54", false)
 					continue
 				}
-				t.Case(key, "reversal", len(before) > 0)
+				// every third file carries stored options (one boolean option at a time, SkipAll among them): the file is
+				// valid under the default rules all the same, and so must the reversing file be
+				var stored *ach.ValidateOpts
+				class := "reversal"
+				if i%3 == 2 {
+					o, name := SingleFlagOpts(i / 3)
+					SetAllValidation(f, o)
+					if f.Validate() == nil {
+						stored = o
+						class = "reversal/stored-" + name
+						key += " opts=" + name
+					} else {
+						SetAllValidation(f, nil)
+					}
+				}
+				fileTotals := [2]int{f.Control.TotalDebitEntryDollarAmountInFile, f.Control.TotalCreditEntryDollarAmountInFile}
+				t.Case(key, class, len(before) > 0)
 				desc := FileInput(f)
+				if stored != nil {
+					desc["stored_validate_opts"] = class
+				}
 				if err := f.Reversal(date); err != nil {
 					t.Fail("C13/reversal-error", "Reversal returned an error on a valid forward file", desc, err.Error(), "nil")
 					continue
 				}
 				checkReversed(t, f, before, totals, date, desc)
+				if f.Control.TotalDebitEntryDollarAmountInFile != fileTotals[1] || f.Control.TotalCreditEntryDollarAmountInFile != fileTotals[0] {
+					t.Fail("C13/file-totals-not-swapped", "the file control's debit/credit totals are not those of the reversed batches", desc,
+						fmt.Sprintf("debit=%d credit=%d", f.Control.TotalDebitEntryDollarAmountInFile, f.Control.TotalCreditEntryDollarAmountInFile),
+						fmt.Sprintf("debit=%d credit=%d", fileTotals[1], fileTotals[0]))
+				}
+				if stored != nil {
+					if err := ValidateDefault(f, stored); err != nil {
+						t.Fail("C13/result-invalid/stored-options", "the reversing file of a file that is valid under the default rules (and carries stored options) is not", desc, err.Error(), "nil")
+					}
+				}
 				// reversing twice restores the original codes
 				if err := f.Reversal(date); err != nil {
 					t.Fail("C13/second-reversal-error", "second Reversal returned an error", desc, err.Error(), "nil")
